@@ -33,7 +33,7 @@ CBMC_BASE = [
     "--object-bits", "16", "--sat-solver", "cadical", "--slice-formula",
 ]
 
-RES_RE = re.compile(r"^\[(.+)\] line (\d+) (.*): (SUCCESS|FAILURE|UNKNOWN|ERROR)$")
+RES_RE = re.compile(r"^\[(.+?)\] (?:file (\S+) )?line (\d+) (.*): (SUCCESS|FAILURE|UNKNOWN|ERROR)$")
 HDR_RE = re.compile(r"^(\S+) function (.+)$")
 KID_RE = re.compile(r"\[?KANI_CHECK_ID_[^\]\s:]*::[A-Za-z0-9_]+\]?\s*")
 
@@ -129,10 +129,10 @@ def list_functions(goto_file, cwd):
                        stderr=subprocess.DEVNULL, text=True)
     names = []
     for line in p.stdout.splitlines():
-        line = line.strip()
-        if line and not line.startswith(("Reading", "Function", "*", "-")):
-            names.append(line.split()[0])
-    return names
+        m = re.search(r"/\* (\S+?),? ", line + " ")
+        if m:
+            names.append(m.group(1).rstrip(","))
+    return sorted(set(names))
 
 
 def resolve_unwindset(harness, hout, workdir, pretty_map_file):
@@ -147,7 +147,9 @@ def resolve_unwindset(harness, hout, workdir, pretty_map_file):
     loops = re.findall(r"^Loop (\S+):", p.stdout, re.M)
     funcs = list_functions(hout, workdir)
     entries, resolved = [], []
-    for rx, bound in harness.unwindset:
+    for ent in harness.unwindset:
+        rx, bound = ent[0], ent[1]
+        kind = ent[2] if len(ent) > 2 else "both"   # "rec": recursion bound only; "loops": loops only; "both"
         r = re.compile(rx)
         hit = False
         for mangled in funcs:
@@ -156,10 +158,12 @@ def resolve_unwindset(harness, hout, workdir, pretty_map_file):
                 continue
             hit = True
             # recursion bound: CBMC takes "<function>:<n>" for recursion, "<function>.<k>:<n>" for loops
-            entries.append("%s:%d" % (mangled, bound))
-            for lp in loops:
-                if lp.rsplit(".", 1)[0] == mangled:
-                    entries.append("%s:%d" % (lp, bound))
+            if kind in ("rec", "both"):
+                entries.append("%s:%d" % (mangled, bound))
+            if kind in ("loops", "both"):
+                for lp in loops:
+                    if lp.rsplit(".", 1)[0] == mangled:
+                        entries.append("%s:%d" % (lp, bound))
             resolved.append((pretty, bound))
         if not hit:
             resolved.append(("<no function matches /%s/>" % rx, bound))
@@ -173,11 +177,13 @@ def parse_cbmc(text):
     for line in text.splitlines():
         m = RES_RE.match(line)
         if m:
-            prop, ln, desc, st = m.groups()
+            prop, pfile, ln, desc, st = m.groups()
             parts = prop.rsplit(".", 2)
             cls = parts[-2] if len(parts) == 3 else "?"
             func = parts[0] if len(parts) == 3 else prop
-            res.append({"property": prop, "class": cls, "function": func, "file": cur_file, "line": int(ln),
+            if prop.endswith(".recursion"):
+                cls, func = "recursion", prop[:-len(".recursion")]
+            res.append({"property": prop, "class": cls, "function": func, "file": pfile or cur_file, "line": int(ln),
                         "description": KID_RE.sub("", desc).strip(), "status": st})
             continue
         m = HDR_RE.match(line)
